@@ -19,10 +19,10 @@ open Wp Wp.Floats Wp.Absolute
 /-- The page used by the replay documents: 300x400 with 20px margins, 10px font. -/
 def pageCB (w : Rat) : CB := ⟨20, w, false⟩
 
-def lineFloatRects (r : Except PyErr (List Shape × List Shape × List PlacedLine × Rat)) :
+def lineFloatRects (r : Except PyErr (List Shape × List PlacedLine × Rat)) :
     Option (List (List (Rat × Rat × Rat × Rat))) :=
   match r with
-  | .ok (_, _, ls, _) => some (ls.map (fun l => l.floats))
+  | .ok (_, ls, _) => some (ls.map (fun l => l.floats))
   | .error _ => none
 
 /-- `some true` = the model behaves as the repaired code should on the committed input. -/
@@ -54,13 +54,13 @@ def regressionOk : String → Option Bool
   | "rtl-inline-float-displaced" =>
     -- rtl, 100-px container at x = 20: a 20x10 left float met after a 20-px word stays inside 20..120
     let l : LineSpec := { w0 := 20, w := 20, h := 10, floats := [⟨0, 0, 0, 0, 0, 0, 20, 10, .left, .none, .bfc⟩] }
-    match lineFloatRects (layoutLines ⟨20, 100, true⟩ 10 .start [] [] [l] 20) with
+    match lineFloatRects (layoutLines ⟨20, 100, true⟩ 10 .start [] [l] 20) with
     | some [[(x, _, w, _)]] => some (decide (20 ≤ x ∧ x + w ≤ 120))
     | _ => some false
   | "inline-float-snapped-to-line-top" =>
     -- a clear:left 5x10 float met in a line next to an 80x30 left float at y = 20 goes below that float
     let l : LineSpec := { w0 := 10, w := 10, h := 10, floats := [⟨0, 0, 0, 0, 0, 0, 5, 10, .left, .left, .bfc⟩] }
-    match lineFloatRects (layoutLines (pageCB 100) 10 .start [⟨20, 20, 80, 30, .left⟩] [⟨20, 20, 80, 30, .left⟩] [l] 20) with
+    match lineFloatRects (layoutLines (pageCB 100) 10 .start [⟨20, 20, 80, 30, .left⟩] [l] 20) with
     | some [[(_, y, _, _)]] => some (decide (20 + 30 ≤ y))
     | _ => some false
   | "abs-replaced-floor-div" =>
@@ -74,6 +74,17 @@ def regressionOk : String → Option Bool
         ⟨20, 20, 0, 0, 0, 0, 50, 10, .left, .none, .bfc⟩ (pageCB 100) with
     | .ok (b, _) => some (decide (b.px = 20 ∧ b.py = 70))
     | .error _ => some false
+  | "zero-height-float-ignores-other-floats" =>
+    -- float:left 20x20 at (20, 20), then float:left;width:10px;height:0;margin:5px: beside it (x = 40), not over it
+    match floatPlace [⟨20, 20, 20, 20, .left⟩] ⟨20, 20, 5, 5, 5, 5, 10, 0, .left, .none, .bfc⟩ (pageCB 100) with
+    | .ok (b, _) => some (decide (b.px = 40 ∧ b.py = 20))
+    | .error _ => some false
+  | "inline-float-laid-out-twice" =>
+    -- rtl, no earlier float: a 20x10 left float met in a line after a 20-px word is at the container's left edge
+    let l : LineSpec := { w0 := 20, w := 20, h := 10, floats := [⟨0, 0, 0, 0, 0, 0, 20, 10, .left, .none, .bfc⟩] }
+    match lineFloatRects (layoutLines ⟨20, 100, true⟩ 10 .start [] [l] 20) with
+    | some [[(x, _, _, _)]] => some (decide (x = 20))
+    | _ => some false
   | _ => none
 
 def handle (cmd : String) (args : List Sx) : Option String :=
